@@ -196,7 +196,8 @@ Lemma u64_pow_exponent_refuted :
 Proof. vm_compute. repeat split. Qed.
 
 (* ---- non-vacuity: a function with locals, a cast, a conditional with early return, logic,
-   division; no signature; source and compiled code agree (value and division trap) ---- *)
+   division; no signature; source and compiled code agree (value and division trap).
+   (Statements are kept at types Z/bool: never state an equation at a type mentioning [fx].) ---- *)
 Definition w_ok :=
   mkf [TI I32; TI U32] [TI I64; TI U8] (TI I64)
     (BCons (SDecl 2 (TI I64) (EArith AMul (ECast (TI I64) (EVar 0)) (ECast (TI I64) (EVar 1))))
@@ -206,15 +207,20 @@ Definition w_ok :=
                 (ElElif (ECmp CEq (EVar 1) (ELit U32 7))
                         (BCons (SCompound 2 AAdd (ELit I64 1)) BNil) ElNone))
     (ret1 (EArith ADiv (EVar 2) (ECast (TI I64) (EArith ASub (EVar 1) (ELit U32 5)))))))).
+Definition spec_is_err (f : func) (args : list (val fx)) : bool :=
+  match spec_run fx f args with RtErr => true | _ => false end.
+Definition no_flags (f : func) (args : list (val fx)) : bool :=
+  match static_flags f ++ dyn_flags fx f args with [] => true | _ => false end.
+
 Lemma compile_correct_nonvacuous :
-  wf w_ok = true /\ static_flags w_ok = [] /\
-  dyn_flags fx w_ok (ints [-7; 4000000000]) = [] /\
+  wf w_ok = true /\
+  no_flags w_ok (ints [-7; 4000000000]) = true /\
   spec_z w_ok (ints [-7; 4000000000]) = Some 28000000000 /\
   wres_z (run_raw w_ok (ints [-7; 4000000000])) = Some (true, inl 28000000000) /\
-  dyn_flags fx w_ok (ints [6; 7]) = [] /\
+  no_flags w_ok (ints [6; 7]) = true /\
   spec_z w_ok (ints [6; 7]) = Some 21 /\
   wres_z (run_raw w_ok (ints [6; 7])) = Some (true, inl 21) /\
-  dyn_flags fx w_ok (ints [6; 5]) = [] /\
-  spec_run fx w_ok (ints [6; 5]) = RtErr /\
+  no_flags w_ok (ints [6; 5]) = true /\
+  spec_is_err w_ok (ints [6; 5]) = true /\
   wres_z (run_raw w_ok (ints [6; 5])) = Some (true, inr TDivZero).
-Proof. vm_compute. repeat split. Qed.
+Proof. timeout 20 vm_compute. repeat split. Qed.
